@@ -9,9 +9,10 @@ Section Generic.
 Variable HS : Type.
 Variable handle : HS -> msg -> HS * verdict.
 Variable rl : role.
+Variable pol : policy.
 
 (* decode in the fuel-free form *)
-Lemma decode_feedx h s : decode HS handle rl h s = feedx HS handle rl h RIdle s.
+Lemma decode_feedx h s : decode HS handle rl pol h s = feedx HS handle rl pol h RIdle s.
 Proof. unfold decode. apply feedx_fuel. unfold mu. lia. Qed.
 
 (* Decoder-level segmentation independence: whatever the partition of the stream into
@@ -20,7 +21,7 @@ Proof. unfold decode. apply feedx_fuel. unfold mu. lia. Qed.
    effect sequence of decoding the whole stream at once. *)
 Theorem decoder_segmentation_independent :
   forall (h : HS) (chunks : list (list N)),
-    feed_chunks HS handle rl h RIdle [] chunks = decode HS handle rl h (concat chunks).
+    feed_chunks HS handle rl pol h RIdle [] chunks = decode HS handle rl pol h (concat chunks).
 Proof.
   intros. rewrite decode_feedx. rewrite feed_chunks_concat; [reflexivity|].
   rewrite feedx_idle. reflexivity.
@@ -29,36 +30,36 @@ Qed.
 (* the same from any settled state (mid-payload included) *)
 Theorem decoder_segmentation_independent_from :
   forall h m buf chunks1 chunks2,
-    feedx HS handle rl h m buf = PRes h m buf [] ->
+    feedx HS handle rl pol h m buf = PRes h m buf [] ->
     concat chunks1 = concat chunks2 ->
-    feed_chunks HS handle rl h m buf chunks1 = feed_chunks HS handle rl h m buf chunks2.
+    feed_chunks HS handle rl pol h m buf chunks1 = feed_chunks HS handle rl pol h m buf chunks2.
 Proof. intros. rewrite !feed_chunks_concat by assumption. congruence. Qed.
 
 (* buffer_safe / totality of the decoder: never Fault (a read outside the unread bytes),
    never out of fuel *)
-Theorem decode_total : forall h s, exists h' m' b' es, decode HS handle rl h s = PRes h' m' b' es.
+Theorem decode_total : forall h s, exists h' m' b' es, decode HS handle rl pol h s = PRes h' m' b' es.
 Proof. intros. rewrite decode_feedx. apply feedx_total'. Qed.
 
 (* what is left unread after decoding is an incomplete message of at most 16 bytes *)
 Theorem decode_rest_incomplete : forall h s h' b' es,
-  decode HS handle rl h s = PRes h' RIdle b' es -> one_msg rl b' = NeedMore.
+  decode HS handle rl pol h s = PRes h' RIdle b' es -> one_msg pol rl b' = NeedMore.
 Proof.
   intros h s h' b' es H. rewrite decode_feedx in H.
-  exact (feedx_shape HS handle rl (S (mu RIdle s)) _ _ _ _ _ _ _ (Nat.lt_succ_diag_r _) H).
+  exact (feedx_shape HS handle rl pol (S (mu RIdle s)) _ _ _ _ _ _ _ (Nat.lt_succ_diag_r _) H).
 Qed.
 
 Theorem no_fatal_from_input :
   handler_never_fatal HS handle ->
-  forall h s h' m' b' es, decode HS handle rl h s = PRes h' m' b' es -> ~ In EFatal es.
+  forall h s h' m' b' es, decode HS handle rl pol h s = PRes h' m' b' es -> ~ In EFatal es.
 Proof.
   intros NF h s h' m' b' es H. rewrite decode_feedx in H.
-  exact (feedx_no_fatal HS handle rl NF (S (mu RIdle s)) _ _ _ _ _ _ _ (Nat.lt_succ_diag_r _) H).
+  exact (feedx_no_fatal HS handle rl pol NF (S (mu RIdle s)) _ _ _ _ _ _ _ (Nat.lt_succ_diag_r _) H).
 Qed.
 
 End Generic.
 
 (* an incomplete message is shorter than the longest header *)
-Lemma needmore_short r l : one_msg r l = NeedMore -> length l < 17.
+Lemma needmore_short pol r l : one_msg pol r l = NeedMore -> length l < 17.
 Proof.
   unfold one_msg, one_body.
   repeat match goal with
@@ -72,17 +73,17 @@ Proof.
   end; congruence.
 Qed.
 
-Theorem decode_rest_incomplete_short (HS : Type) (handle : HS -> msg -> HS * verdict) (rl : role) :
+Theorem decode_rest_incomplete_short (HS : Type) (handle : HS -> msg -> HS * verdict) (rl : role) (pol : policy) :
   forall (h : HS) (s : list N) (h' : HS) (b' : list N) (es : list effect),
-  decode HS handle rl h s = PRes h' RIdle b' es -> one_msg rl b' = NeedMore /\ length b' < 17.
+  decode HS handle rl pol h s = PRes h' RIdle b' es -> one_msg pol rl b' = NeedMore /\ length b' < 17.
 Proof.
-  intros h s h' b' es H. pose proof (decode_rest_incomplete HS handle rl h s h' b' es H) as X.
-  split; [exact X|]. apply (needmore_short rl b' X).
+  intros h s h' b' es H. pose proof (decode_rest_incomplete HS handle rl pol h s h' b' es H) as X.
+  split; [exact X|]. apply (needmore_short pol rl b' X).
 Qed.
 
 (* ---------- concrete instances: the correspondence handler ------------------------------- *)
-Definition cfg_seed : cfg := mk_cfg Seed 8 true true [] [].
-Definition cfg_leech : cfg := mk_cfg Leech 8 false true [] [].
+Definition cfg_seed : cfg := mk_cfg Seed 8 true true [] pol_src [].
+Definition cfg_leech : cfg := mk_cfg Leech 8 false true [] pol_src [].
 Definition h0 (c : cfg) : hst := hinit c (repeat false 8) false false false.
 
 Lemma hreal_never_fatal c : handler_never_fatal hst (hreal c).
@@ -135,7 +136,7 @@ Example sample_decode :
 Proof. vm_compute. reflexivity. Qed.
 
 Example sample_chunks :
-  feed_chunks hst (hreal cfg_leech) Leech (h0 cfg_leech) RIdle [] (map (fun b => [b]) sample_stream)
+  feed_chunks hst (hreal cfg_leech) Leech pol_src (h0 cfg_leech) RIdle [] (map (fun b => [b]) sample_stream)
   = decode_real cfg_leech (h0 cfg_leech) sample_stream.
 Proof. vm_compute. reflexivity. Qed.
 
